@@ -512,5 +512,98 @@ func init() {
 			c02Case(o, rng.Fork())
 		}
 		c02ArgsStream(o, rng.Fork(), n/3)
+		c02EmptyLists(o)
+	}
+}
+
+// ---- empty lists behind every list representation ------------------------------------------------------
+//
+// Fixed table, every run: the same empty list held as a []interface{}, behind the ListResolver interface, behind
+// an AnyResolver's Len/Nth, as a typed Go slice and as a Go array found by reflection.  The response — compared as
+// encoding/json writes it, which tells a nil slice (null) from an empty one ([]) — must be the same.
+
+type c02EmptyList struct{}
+
+func (c02EmptyList) Len() int              { return 0 }
+func (c02EmptyList) Nth(i int) interface{} { return nil }
+
+type c02ENode struct{ list interface{} }
+
+func (n *c02ENode) Resolve(f *ggql.Field, args map[string]interface{}) (interface{}, error) {
+	switch f.Name {
+	case "query":
+		return n, nil
+	case "items", "names":
+		return n.list, nil
+	}
+	return nil, nil
+}
+
+type c02EItem struct{ Name string }
+type c02EQuery struct {
+	Items interface{}
+	Names interface{}
+}
+type c02ESchema struct{ Query *c02EQuery }
+
+type c02EAny struct{}
+
+type c02ECustom struct{ n int }
+
+func (c02EAny) Resolve(obj interface{}, f *ggql.Field, args map[string]interface{}) (interface{}, error) {
+	if m, ok := obj.(map[string]interface{}); ok {
+		return m[f.Name], nil
+	}
+	return nil, nil
+}
+func (c02EAny) Len(list interface{}) int {
+	if c, ok := list.(*c02ECustom); ok {
+		return c.n
+	}
+	return 0
+}
+func (c02EAny) Nth(list interface{}, i int) (interface{}, error) { return nil, nil }
+
+func c02EmptyLists(o *Out) {
+	const sdl = "type Query { items: [Item] names: [String] }\ntype Item { name: String }"
+	mk := map[string]func() *ggql.Root{
+		"iface-slice":        func() *ggql.Root { return ggql.NewRoot(&c02ENode{list: []interface{}{}}) },
+		"iface-listresolver": func() *ggql.Root { return ggql.NewRoot(&c02ENode{list: c02EmptyList{}}) },
+		"any-slice": func() *ggql.Root {
+			r := ggql.NewRoot(map[string]interface{}{"query": map[string]interface{}{"items": []interface{}{}, "names": []interface{}{}}})
+			r.AnyResolver = c02EAny{}
+			return r
+		},
+		"any-custom-list": func() *ggql.Root {
+			r := ggql.NewRoot(map[string]interface{}{"query": map[string]interface{}{"items": &c02ECustom{}, "names": &c02ECustom{}}})
+			r.AnyResolver = c02EAny{}
+			return r
+		},
+		"reflect-typed-slice": func() *ggql.Root {
+			return ggql.NewRoot(&c02ESchema{Query: &c02EQuery{Items: []*c02EItem{}, Names: []string{}}})
+		},
+		"reflect-array": func() *ggql.Root {
+			return ggql.NewRoot(&c02ESchema{Query: &c02EQuery{Items: [0]*c02EItem{}, Names: [0]string{}}})
+		},
+		"reflect-interface-slice": func() *ggql.Root {
+			return ggql.NewRoot(&c02ESchema{Query: &c02EQuery{Items: []interface{}{}, Names: []interface{}{}}})
+		},
+	}
+	names := make([]string, 0, len(mk))
+	for k := range mk {
+		names = append(names, k)
+	}
+	sort.Strings(names)
+	for _, doc := range []string{"{ items { name } }", "{ names }", "{ items { name } names }"} {
+		var obs []T
+		for _, k := range names {
+			root := mk[k]()
+			if err := root.ParseString(sdl); err != nil {
+				panic(err)
+			}
+			obs = append(obs, N("s", S(k), S(canon(safeResolve(root, doc, "", nil)))))
+		}
+		o.Count("empty-list documents")
+		o.Emit(Case{Term: N("c02e", S(doc)), Obs: LS(obs), Meta: map[string]interface{}{"doc": doc}, Nontrivial: true})
 	}
 }
